@@ -18,7 +18,7 @@ import common as C  # noqa: E402
 
 FAMILY = {
     "C01": "cast", "C02": "cast", "C03": "cast", "C07": "cast", "C11": "cast+alloc", "C14": "cast",
-    "C17": "tables:contig", "C04": "tables:census",
+    "C20": "features", "C17": "tables:contig", "C04": "tables:census",
     "C09": "alloc", "C10": "alloc", "C12": "alloc", "C13": "alloc", "C15": "alloc", "C16": "alloc",
 }
 
@@ -170,6 +170,16 @@ def check(prop, tier, seed):
                          "boundaries/extremes of wider ones, derived enums against default-method twins; trait census over the closed "
                          "type universe per feature configuration; one evaluation = one probe of the real crate compared with the "
                          "model over the REGENERATED tables and checked by the monitor; distinct = distinct transcript lines" % ", ".join(which))
+        if fam == "features":
+            import fam_features
+            m, st = fam_features.run(tier, seed)
+            mons += m; herr += list(st["harness_errors"]); notes += st.get("notes", [])
+            evals += st["evaluations"]; distinct += len(st["distinct"]) + st["by"].get("feature sets built", 0); samples += st["samples"]
+            dist["features"] = dict(st["by"])
+            rules.append("C20: cargo check of every single sound stable feature, every pair with extern_crate_alloc, the named sets and "
+                         "seeded random subsets (thorough: all pairs); castgrid transcripts under feature sets compared line by line "
+                         "(cfg column ignored); allocgrid transcripts with and without alloc_uninit compared; census rows of each type "
+                         "under the smaller set implied by those under the larger; distinct = distinct feature sets + compared transcripts")
         stats = {"evaluations": evals, "distinct_nontrivial": distinct, "rule": " || ".join(rules), "samples": samples,
                  "distribution": dist}
         if notes:
